@@ -129,7 +129,7 @@ type methodSpec struct {
 	maxTries int
 
 	pwViaCallback bool
-	pwErrOnCall   int // PasswordCallback returns an error on this call (1-based; 0: never)
+	pwErrOnCall   int      // PasswordCallback returns an error on this call (1-based; 0: never)
 	pwList        []string // Setup B: the password returned on call 1, 2, … (the last one repeats)
 
 	kiMode int // 0 answers properly, 1 returns an error, 2 returns a wrong number of answers, 3 answers wrongly
@@ -410,6 +410,7 @@ type policy struct {
 	disconnectAt       int // request index, -1 never
 	cap                int
 	directed           string
+	rejectSHA2CertOnce bool // the first RSA SHA-2 certificate offer is refused, everything later is accepted
 }
 
 // ---- the scripted server -----------------------------------------------------------
@@ -421,13 +422,14 @@ type server struct {
 	pol  *policy
 	spec *clientSpec
 
-	cur       []string // list most recently sent
-	nreq      int
-	success   bool
-	kiPending int // INFO_REQUEST rounds still to send after the next response
-	kiActive  bool
-	kiPrompts int
-	stop      bool
+	cur              []string // list most recently sent
+	nreq             int
+	success          bool
+	kiPending        int // INFO_REQUEST rounds still to send after the next response
+	kiActive         bool
+	kiPrompts        int
+	stop             bool
+	rejectedCertOnce bool
 }
 
 func (s *server) send(e event, p []byte) bool {
@@ -587,6 +589,15 @@ func (s *server) otherBlob(m *cauth.ClientMsg) []byte {
 }
 
 func (s *server) query(m *cauth.ClientMsg) {
+	if s.pol.rejectSHA2CertOnce {
+		if isSHA2RSACert(m.Algo) && !s.rejectedCertOnce {
+			s.rejectedCertOnce = true
+			s.failure([]string{"publickey"}, false)
+			return
+		}
+		s.send(event{SType: "pkok", PKAlgo: m.Algo, PKBlob: slices.Clone(m.KeyBlob)}, cauth.PKOK(m.Algo, m.KeyBlob))
+		return
+	}
 	tot := 0
 	for _, w := range s.pol.pkWeights {
 		tot += w
